@@ -9,7 +9,7 @@
 (* The configuration file (written by bin/check) picks Family, MaxNodes,   *)
 (* MaxClosure and EmitMode.                                                *)
 (***************************************************************************)
-EXTENDS Gen, Json
+EXTENDS Gen, Json, Walk
 
 CONSTANTS Family, EmitMode
 
@@ -241,6 +241,14 @@ LawsHold == Complete =>
      (r.exp.ok /\ r.exp2.ok) => r.exp.v = r.exp2.v
 
 EmitLaws == (Complete /\ EmitMode = "laws") => \A lw \in LawPairs(Tree) : PrintT(ToJson(LawCase(lw)))
+
+(* C10: the traversal the documentation promises for the parser's tree of    *)
+(* Src(Tree), and the text whose compilation the patching visitor must equal *)
+WalkCase == [src |-> Src(Tree), n |-> n, walk |-> WalkSeq(Tree), nodes |-> EnterCount(Tree),
+             psrc |-> Src(Patch(Tree)), patched |-> Patch(Tree) # Tree, cbp |-> HasConstBadPattern(Tree),
+             envs |-> Assignments(Mentions(Tree))]
+WalkBalanced == Complete => Balanced(WalkSeq(Tree), 1, <<>>) /\ Len(WalkSeq(Tree)) = 2 * EnterCount(Tree)
+EmitWalk == (Complete /\ EmitMode = "walk") => PrintT(ToJson(WalkCase))
 
 (* EmitMode "cases": print one JSON line per complete expression.          *)
 (* EmitMode "count": only evaluate the reference semantics (timing/stats). *)
